@@ -58,6 +58,10 @@ def claim_rmw(ctx, db, rid='C01.claim-rmw'):
         ok = len(ops) == 1 and atomic.opname(ops[0]) == 'exchange' and (ops[0].get('args') or [{}])[0].get('const') == 0
         rets = [e for e in f.events() if e.k == 'return']
         ok_ret = ok and len(rets) == 1 and rets[0].get('ret_ev') == ops[0]['id']
+        if ok and not ok_ret:
+            # through a local:  T *const previous = _owner.exchange(nullptr);  return previous;
+            trs_ = [t for t in Tracer(db, depth=0).traces(f) if live(t)]
+            ok_ret = bool(trs_) and all(re.fullmatch(r'call\(std::atomic[^()]*::exchange\)', origin_in_trace(t, len(t), ret_expr(t))[0] or '') for t in trs_)
         ctx.ob(rid, f, f['key'], ok, 'the claim is one atomic exchange(nullptr) on _owner (found: %s)' % ', '.join(atomic.opname(o) for o in ops), desc='claim is not a single exchange(nullptr)')
         ctx.ob(rid, f, f['key'], ok_ret, 'claim returns exactly the value obtained by the exchange', desc='claim does not return the exchanged value')
 
@@ -361,6 +365,12 @@ def state_tag_agrees(ctx, db, rid='C01.state-tag-agrees'):
                    'the member that belongs to the switch arm they are in', floor=4)
     T = Tracer(db, depth=0)
     seen = set()
+    if not db.fns('cocls::future::set_ref') and any('&>' in (c.get('inst') or '').replace(' ', '') for c in db.class_insts('cocls::future')):
+        # future<T&> is instantiated but nothing instantiates set_ref any more: the reference form of set no longer goes through it
+        f0 = db.need('cocls::future::set')[0]
+        ctx.ob(rid, f0, f0['key'], False, 'set() of a future of references stores through set_ref (pointer member + value_ref tag)',
+               desc='future<T&>::set does not call set_ref: a reference is stored under the tag of a plain value and read back as one')
+        return
     for name in ('cocls::future::set', 'cocls::future::set_ref'):
         for f in db.need(name):
             inst_void = f.get('class_inst', '').startswith('cocls::future<void>')
@@ -418,7 +428,10 @@ def state_tag_agrees(ctx, db, rid='C01.state-tag-agrees'):
                         bad = bad or 'arm %s %s member %s' % (arm, kind, mem)
             if kind == 'destroys' and not bad:
                 # ... and the stored exception is released in every instantiation - future<void> stores no value, but it does store exceptions
-                rel = any(it.k == 'call' and re.search(r'\._exception\b', it.get('recv') or '') and '~' in (it.get('callee') or '') for tr in T.traces(f) for it in tr)
+                Th = htracer(db)
+                rel = any(it.k == 'call' and ((re.search(r'(\.|->)_exception\b', it.get('recv') or '') and '~' in (it.get('callee') or '')) or
+                                              (norm(it.get('callee') or '') in ('std::destroy_at', 'std::destroy') and any('_exception' in (a_.get('path') or '') for a_ in it.get('args', []))))
+                          for tr in Th.traces(f) for it in tr)
                 if not rel:
                     bad = 'the destructor of %s never releases a stored exception (the exception object leaks with every failed future)' % (f.get('class_inst') or 'future<T>')
             k = (f['key'], bad)
@@ -439,8 +452,13 @@ def has_value_agrees(ctx, db, rid='C01.has-value-agrees'):
             bad = None
             for tr in trs:
                 p = ret_expr(tr) or ''
-                if not (re.fullmatch(r'\((.*_owner(->|\.)_state) != decl:cocls::future_common::State::not_value\)', p) or re.fullmatch(r'!\(\((.*_owner(->|\.)_state) == decl:cocls::future_common::State::not_value\)\)', p)):
-                    bad = bad or ('a path answers %s' % (p or '?')[:90], tr)
+                neg = False
+                while p.startswith('!(') and p.endswith(')'):
+                    p = p[2:-1]; neg = not neg
+                m_ = re.fullmatch(r'\((.+) (!=|==) decl:cocls::future_common::State::not_value\)', p)
+                src = (origin_in_trace(tr, len(tr), m_.group(1))[0] or m_.group(1)) if m_ else ''      # the state may be read into a local first
+                if not (m_ and re.search(r'_owner(->|\.)_state$', src) and ((m_.group(2) == '!=') != neg)):
+                    bad = bad or ('a path answers %s' % (ret_expr(tr) or '?')[:90], tr)
             ctx.ob(rid, f, f['key'], bad is None and len(trs) > 0, '%s answers _state != not_value' % name.split('::')[-1] + ('' if not bad else ' -- ' + bad[0]), desc=bad[0] if bad else None)
 
 
